@@ -182,8 +182,8 @@ def decide_close(ob, name, p, code, ref, tol, *, domain=None, oracle=None, make_
     if v.status == 'unsat':
         return res(ob, name, 'proved', qs, detail, paths=paths)
     if (pid, key or ob) in _CONFIRMED:
-        return res(ob, name, 'inconclusive', qs, 'solver=%s; not examined further: a violation with the same key is already '
-                   'confirmed (%s)' % (v.status, _CONFIRMED[(pid, key or ob)]), paths=paths)
+        return res(ob, name, 'violated', qs, 'solver=%s; same finding as the violation already confirmed by replay (%s); not replayed again'
+                   % (v.status, _CONFIRMED[(pid, key or ob)]), key=key or ob, replay_path=_CONFIRMED[(pid, key or ob)], paths=paths)
     if ob_over or (any_bad and BUDGET > 0 and _time.time() - _T0[0] > BUDGET / 3):
         return res(ob, name, 'inconclusive', qs, 'solver=%s; group time budget exhausted (or a violation is already confirmed in this '
                    'group), witness search skipped' % v.status, paths=paths)
@@ -249,8 +249,8 @@ def decide_goal(ob, name, conds, goal, *, timeout_s=30, seed=0, oracle=None, arg
         return res(ob, name, 'proved', qs, detail, paths=paths)
     tried = None
     if (pid, key or ob) in _CONFIRMED:
-        return res(ob, name, 'inconclusive', qs, 'solver=%s; not examined further: a violation with the same key is already '
-                   'confirmed (%s)' % (v.status, _CONFIRMED[(pid, key or ob)]), paths=paths)
+        return res(ob, name, 'violated', qs, 'solver=%s; same finding as the violation already confirmed by replay (%s); not replayed again'
+                   % (v.status, _CONFIRMED[(pid, key or ob)]), key=key or ob, replay_path=_CONFIRMED[(pid, key or ob)], paths=paths)
     if oracle is not None and args_from_model is not None:
         envs = []
         if v.status == 'sat' and v.model is not None:
